@@ -81,7 +81,7 @@ pub fn generator_spec(path: &str, args: &[(String, String)]) -> String {
     out
 }
 
-pub const GEN_PATHS: &[&str] = &["gen-alpha", "tools/beta.exe", "/usr/local/bin/gamma", "./delta gen", "EPSILON.sh"];
+pub const GEN_PATHS: &[&str] = &["gen-alpha", "tools/beta.exe", "/usr/local/bin/gamma", "./delta gen", "EPSILON.sh", "we,ird=zeta"];
 pub const POOL: &[&str] = &["a.txt", "gen/b.cs", "c.rs", "deep/er/d.txt", "same.txt", "diff.txt", "adir", "ro.txt", "x.txt"];
 
 /// Deterministic contents of a generated file: a function of (path, version, big).
@@ -907,8 +907,17 @@ pub fn generate_c07(rng: &mut Rng) -> Scenario {
         argv.push("-D".into());
         argv.push("SOMESYMBOL".into());
     }
+    let mut broken_by_symbol = false;
+    if program.template == "clean-unless-defined" && !io_error && rng.chance(1, 2) {
+        argv.push("-D".into());
+        argv.push("BREAKIT".into());
+        broken_by_symbol = true;
+        expected_codes = vec!["E033".into()];
+    }
     let class = if io_error {
         "io-error"
+    } else if broken_by_symbol {
+        "error"
     } else {
         match program.class {
             Class::Clean => "clean",
